@@ -102,7 +102,10 @@ CHECKS = [
                 "all three constructors incl. caller-owned data, next/seek/close/drop+gc, explicit finalize, faults "
                 "RenderError/Exception/StopIteration/KeyboardInterrupt at the k-th render) run on a renderable whose "
                 "class registers every RenderData and counts _finalize_render_data_ calls; after every operation the "
-                "exactly-once / never-used-after / caller-ownership / closed-iterator invariants are checked.",
+                "exactly-once / never-used-after / caller-ownership / closed-iterator invariants are checked (incl. a close() "
+                "attempted from inside a frame render). Clause families: a fresh hierarchy of render classes per case "
+                "(with / without / inheriting a data finalizer) used in generated order; each class's finalizer runs "
+                "exactly once on each of its data objects.",
         "note": "Finalization on failure is required as soon as the failing call has raised, not at garbage collection "
                 "(the registry holds strong references, so the __del__ fallback does not mask a missing finalize).",
     },
@@ -114,7 +117,10 @@ CHECKS = [
                 "colour runs) are executed on the terminal model; the half-cell colours read back are compared exactly "
                 "with a reference built from the documented conversion, threshold and compositing rules; determinism, "
                 "split-cells equivalence and uniformity are checked as metamorphic relations; the public path format(image, "
-                "'1.1#...') with the same transparency setting written as a specifier must give the identical render.",
+                "'1.1#...') with the same transparency setting written as a specifier must give the identical render. "
+                "Clause interrupted (fault enumeration): the first render of a fresh image is interrupted at every source "
+                "line it passes through (outside clean-up code), under the same or another transparency setting; the "
+                "next render must equal an undisturbed twin's.",
         "note": "Trusts Pillow convert/BOX resize/alpha_composite and vf.vt; the kitty BG+-1 nudge is accepted only on "
                 "halves painted with a cell background equal to the known terminal background.",
     },
